@@ -63,6 +63,12 @@ def make_case(rng, fmt):
     for i in range(n):
         r = {"reactants": [rng.choice(names) for _ in range(rng.choice([1, 2]))], "products": [rng.choice(names) for _ in range(rng.choice([1, 2, 3]))],
              "idx": i + 1, "alpha": coeff(rng), "beta": coeff(rng), "gamma": coeff(rng), "pseudo": None}
+        # stratum (seed C05-h): unit / vanishing parameter combinations, where an emitter may be tempted to drop a factor
+        if i % 8 == 3:
+            r["alpha"], r["beta"], r["gamma"] = 1.0, 0.0, 0.0
+        elif i % 8 == 6:
+            r["alpha"] = 1.0
+            r[rng.choice(["beta", "gamma"])] = 0.0
         if fmt == "kida":
             r["formula"] = rng.randint(1, 5)
             r["pseudo"] = {1: "CR", 2: "Photon"}.get(r["formula"])
